@@ -87,6 +87,30 @@ def run(replay=None):
     qd, st3 = accepted_families(['qdom'], salt='c15q')       # quantifiers nested inside the domain of a quantifier
     rep.add_tlc(st3)
     asts = asts + fams + qd
+    # events that exist only as objects: the events of the shapes of HplShapes (family disj), built through the API one by
+    # one - among them disjunctions in which an alternative refers to the alias of a sibling, which no accepted property contains
+    from harness import build, grammar, render
+    dsh, st4 = grammar.enumerate_shapes('disj')
+    rep.add_tlc(st4)
+    nev = 0
+    seen_ev = set()
+    for sh in dsh:
+        toks, exp = render.substitute(sh, lits=grammar.STD_LITS)
+        exp = grammar.fix_var_names(exp)
+        for pos in (exp['scope']['activator'], exp['scope']['terminator'], exp['pattern']['trigger'], exp['pattern']['behaviour']):
+            if not isinstance(pos, dict) or pos.get('cls') not in ('HplSimpleEvent', 'HplEventDisjunction'):
+                continue
+            key = repr(pos)
+            if key in seen_ev:
+                continue
+            seen_ev.add(key)
+            try:
+                evobj = build.event(pos)
+            except Exception:  # noqa  (e.g. duplicate channels: the constructor rejects it)
+                continue
+            asts.append(('event built through the API: %s' % evobj, 'event', evobj))
+            nev += 1
+    rep.count('events_built_through_the_api', nev)
     events, info = [], {}
     eid = 0
     slot_cov = {}
